@@ -29,4 +29,4 @@ if os.path.exists(f) and time.time()-os.path.getmtime(f)<150:
 else: print('  > no violation reported by %s' % sys.argv[1])
 PY
 done
-git -C /repo checkout -- . ; git -C /repo status --porcelain
+git -C /repo checkout -- . ; git -C /repo clean -fdq -- src; git -C /repo status --porcelain
